@@ -50,6 +50,7 @@ struct MErr { // error type whose move constructor visibly modifies its source (
 };
 inline auto ecode(Err const& e) -> int { return e.code; }
 inline auto ecode(MErr const& e) -> int { return e.c.get(); }
+inline auto ecode(TCM const& e) -> int { return e.get(); } // expected<NonTriv,NonTriv>: value and error type coincide
 
 inline auto val(int x) -> int { return x; }
 inline auto val(long x) -> int { return static_cast<int>(x); }
@@ -115,7 +116,7 @@ template <typename T, typename E>
 struct Exp {
     using O = etl::expected<T, E>;
     static constexpr bool tval    = std::is_same_v<T, TCM>;  // moving the value is visible in its source
-    static constexpr bool terr    = std::is_same_v<E, MErr>; // moving the error is visible in its source
+    static constexpr bool terr    = std::is_same_v<E, MErr> || std::is_same_v<E, TCM>; // moving the error is visible in its source
     static constexpr bool tracked = tval || terr;
 
     struct M {
@@ -480,9 +481,15 @@ struct Config {
 #else
     #define C07_RUN1 nullptr
 #endif
+#if !defined(C07_ONLY) || C07_ONLY == 2
+    #define C07_RUN2 &Exp<TCM, TCM>::run
+#else
+    #define C07_RUN2 nullptr
+#endif
 Config const configs[] = {
     {"expected<int,Err>", C07_RUN0},
     {"expected<NonTriv,MErr>", C07_RUN1}, // MErr: error type with a visible (payload-resetting) move constructor
+    {"expected<NonTriv,NonTriv>", C07_RUN2}, // T == E: has_value() can only follow the index, never the type
 };
 constexpr std::uint32_t nconfigs = sizeof(configs) / sizeof(configs[0]);
 
